@@ -25,7 +25,7 @@ RULE = (
 ASSUMPTIONS = ["both classes non-empty", "NumPy global RandomState seeded per case", "the C13 reference model for the interval formula"]
 SAMPLERS = [("replacement", None), ("replacement", "by_label"), ("single_pass", None), ("single_pass", "by_label"), ("dynamic", None), ("dynamic", "by_label"),
             ("proportion", None), ("custom", None), ("identity", None)]
-METRICS = ["fnr", "eer", "thr", "auc", "cm_int", "vec_callable", "scalar_callable", "tpr_alias"]
+METRICS = ["fnr", "eer", "thr", "auc", "cm_int", "vec_callable", "scalar_callable", "tpr_alias", "partly_nan", "partly_nan"]
 
 
 def install(ctx):
@@ -89,6 +89,13 @@ def execute(ctx, case):
         def metric(x):
             return float(len(x.pos)) / max(len(x.neg), 1)
         kw, fn = {}, lambda x: np.asarray(float(len(x.pos)) / max(len(x.neg), 1))
+    elif mname == "partly_nan":  # undefined on some resamples (like a group-wise rate of a small group): NaN replicates reach the CI formula
+        q = float(np.quantile(np.asarray(pos, dtype=float), 0.3))
+
+        def metric(x, threshold):
+            v = np.stack([x.fnr(threshold), x.fpr(threshold)])
+            return v if float(x.pos[0]) > q or x is s else np.full_like(v, np.nan)
+        kw, fn = {"threshold": th}, lambda x: metric(x, th)
     else:  # group_fnr resolved on type(self)
         metric, kw, fn = "group_fnr", {"threshold": th}, lambda x: x.group_fnr(th)
     kind, strat = case["sampler"]
